@@ -271,9 +271,16 @@ def run(ctx):
     # the data paths above are stream.StrideConverter: its packing element carries the burst's `last` (WLAST / RLAST of the converted
     # burst) -- same obligation as C03.S3, reported here because the converted burst is what this property is about
     ctx.rule("U6", "the packing element behind the converters' narrow->wide data paths (stream._UpConverter, via StrideConverter) puts "
-                   "`last` (and `first`) on the wide beat of the narrow beat that carried it, and only there", min_sites=2)
+                   "`last` (and `first`) on the wide beat of the narrow beat that carried it, and only there; the lane counters of the packing / "
+                   "unpacking elements step only on their own handshake", min_sites=4)
     from ..rules_stream import s3_word_flags
     s3_word_flags(ctx, "U6", fx_of(ctx, "litex/soc/interconnect/stream.py", "_UpConverter"), "_UpConverter")
+    # ... and the lane counters of both elements step only on their own handshake (wide->narrow: W of the down-converter, R of the
+    # up-converter -- a slave that holds WREADY high before the data arrives must not advance the sub-beat position)
+    from ..rules_stream import s3_counter
+    from .c03 import HIN, HOUT
+    for cls_, cnt_, hs_ in (("_UpConverter", "demux", HIN), ("_DownConverter", "mux", HOUT)):
+        s3_counter(ctx, "U6", fx_of(ctx, "litex/soc/interconnect/stream.py", cls_), cls_, cnt_, hs_)
 
     # ================================================================ U3
     fx = fx_of(ctx, AF, "AXIDownConverter")
